@@ -287,12 +287,7 @@ pub enum Verdict {
 }
 
 fn lt_l(s: &[u8; 32]) -> bool {
-    for i in (0..32).rev() {
-        if s[i] != big::L[i] {
-            return s[i] < big::L[i];
-        }
-    }
-    false
+    big::lt_l(s)
 }
 
 /// the verdict the property specifies for an arbitrary triple
@@ -333,6 +328,13 @@ pub fn verify(msg: &[u8], pk: &[u8; 32], sig: &[u8; 64]) -> Verdict {
     } else {
         Verdict::Reject
     }
+}
+
+/// enc([s]B) for an arbitrary (possibly non-canonical) 32-byte scalar
+pub fn encode_scalarmult_base(s: &[u8; 32]) -> [u8; 32] {
+    let dconst = d();
+    let d2 = add(&dconst, &dconst);
+    encode(&scalarmult(s, &base(&dconst), &d2))
 }
 
 /// A + T as bytes (used by the Byzantine sender to build mixed-order keys); None if either is not a point
